@@ -35,6 +35,17 @@ func init() {
 			return mkIntTerm(d.bits, d.signed, t)
 		})
 	}
+	reg(s("SmallBase"), func(in *Interp, fr *frame, args []value) value {
+		t := in.p.input(args[0].(string), smt.BV(64))
+		if !t.IsConst() {
+			if in.p.C.SmallBases == nil {
+				in.p.C.SmallBases = map[int]bool{}
+			}
+			in.p.C.SmallBases[t.ID] = true
+			in.p.assume(in.p.C.Cmp(smt.OpBvUle, t, in.p.C.BVConst(1<<62, 64)))
+		}
+		return mkIntTerm(64, false, t)
+	})
 	reg(s("Bool"), func(in *Interp, fr *frame, args []value) value {
 		return mkBool(in.p.input(args[0].(string), smt.BoolSort))
 	})
